@@ -42,7 +42,7 @@ YmdOfRD(r, yy) == CHOOSE t \in ((yy - 2)..(yy + 2)) \X (1..12) \X (1..31) :
 AddD(k, unit, mult) ==
            /\ Len(ops) < MAXOPS
            /\ LET r == RD(y, m, ClampDay(y, m, dreq)) + mult * k
-                  t == YmdOfRD(r, y)
+                  t == YmdOfRD(r, y + (mult * k) \div 365)       \* search around the year the step lands in
               IN y' = t[1] /\ m' = t[2] /\ dreq' = t[3]
            /\ ops' = Append(ops, <<unit, k>>)
            /\ UNCHANGED <<y0, m0, d0>>
